@@ -1,6 +1,7 @@
 import OmbottModel.Model.Headers
 import OmbottModel.Lemmas.Headers
 import OmbottModel.Gen.Headers
+import OmbottModel.Lemmas.AppEmit
 /-!
 C14 — Response header values cannot split the response and are wire-safe.
 Property theorems only; helper lemmas live in `Lemmas/Headers.lean`, `Lemmas/Text.lean`.
@@ -147,6 +148,48 @@ theorem wsgi_emitted_clean (ops : List Op) (n : Nat) (r : Resp) (es : List (Opti
         rw [hasCtl_transcode]
         exact hck c hc
     · simp at hw
+
+/-! ### the composed application (`Model/App.lean`): what `Ombott.__call__` hands to `start_response` -/
+
+/-- **`app_emitted_clean`: every header pair in `App.serve`'s `start_response` list is free of
+CR, LF and NUL.**  For every application inside C03's domain (`App.DomainB`: hooks, error
+handlers and handler programs — statements over the guarded setters `headers[k] = v`,
+`headers.append`, `set_cookie`, the status setter; response objects built by the guarded
+constructors — with CR/LF-free names), every router state and every request on which `App.serve`
+is defined — whichever route the router selects, whatever the programs try to store, through
+`_handle`, `apply`, `_cast`, the default or a custom error handler —, every value in the one
+list handed to `start_response` is clean: on the normal path the list IS
+`Model/Headers.headerlist` of the final response object (`wsgi_headers_refine_headers_model`) and
+its store is clean (`emitted_clean`); the last-resort path emits its literal list.  As in
+`wsgi_emitted_clean`, the morsels of the cookie jar are C15's (`emit_clean`). -/
+theorem app_emitted_clean (cfg : App.AppConfig) (R : Router.Router) (q : App.Req) (res : Wsgi.Result)
+    (hs : App.serveW cfg R q = .ok res) (hB : App.DomainB cfg)
+    (hck : ∀ c ∈ res.slots.resp.cookies, Clean (c.1 ++ '=' :: c.2)) :
+    ∀ line hdrs x, Wsgi.Event.startResponse line hdrs x ∈ res.events → ∀ h ∈ hdrs, Clean h.2 := by
+  obtain ⟨r, hr, rfl⟩ := App.serveW_ok hs
+  obtain ⟨_, _, _, _, _, _, _, _, _, hrel⟩ := App.wsgiReq_ok hr
+  obtain ⟨hre, hra⟩ := App.route_domainB hrel hB
+  have hok := App.wsgi_slots_ok cfg.hooks Wsgi.Slots.fresh r hB.1 hB.2.1 hre hra
+  intro line hdrs x hmem h hh
+  cases x with
+  | true =>
+    obtain ⟨rfl, _⟩ := App.wsgi_start_exc cfg.hooks Wsgi.Slots.fresh r line hdrs hmem
+    simp only [catchAllHeaders, List.mem_singleton] at hh
+    subst hh
+    decide
+  | false =>
+    have hview := App.wsgi_start_headers_view cfg.hooks Wsgi.Slots.fresh r line hdrs hmem
+    rw [hview, headerlist, List.mem_append] at hh
+    have hclean := App.headersView_clean _ ((Wsgi.RState.ok_iff _).mp hok).2.1
+    rcases hh with hh | hh
+    · exact emitted_clean _ hclean h hh
+    · simp only [cookiePart, List.mem_map] at hh
+      obtain ⟨c, hc, rfl⟩ := hh
+      unfold Clean
+      rw [hasCtl_transcode]
+      simp only [App.headersView, List.mem_map] at hc
+      obtain ⟨c0, hc0, rfl⟩ := hc
+      exact hck c0 hc0
 
 /-- the same fact on core Lean's own decoder (`List.utf8Decode?_utf8Encode`) -/
 theorem transcode_roundtrip_core (s : Str) :
@@ -344,6 +387,46 @@ example : (badFor (some 304)).isSome = true ∧
     headerlist { status := some 304, store := [("content-length".toList, .one "5".toList)], cookies := [] } = [] ∧
     headerlist { status := some 200, store := [("content-length".toList, .one "5".toList)], cookies := [] } ≠ [] := by
   decide
+
+/-! #### the composed application -/
+
+/-- a before hook that stores a non-ASCII value and a cookie; every callback tries to smuggle a
+second header line through item assignment -/
+def nvAppCfg : App.AppConfig :=
+  { hooks := { before := [{ effs := [.setHeader "X-A".toList "é€".toList, .setCookie "k".toList "v".toList], res := .ok }],
+               after := [], errHandlers := [] },
+    handlers := fun _ _ => { effs := [.setHeader "X".toList "a\r\nSet-Cookie: x".toList], res := .returns (.text "hi".toList) },
+    upper := Router.asciiUpper, fenv := fun _ _ => none, pr := fun _ => true }
+
+def nvAppRouter : Router.Router :=
+  Router.Router.run Router.asciiUpper
+    [.add (fun _ => none) { rule := "/a".toList, methods := ["GET".toList], handler := 0 }]
+
+def nvAppReq (path : List UInt8) : App.Req :=
+  { id := 1, verb := "GET".toList, rawPath := path,
+    env := { fwdProto := none, urlScheme := some "http".toList, fwdHost := none, host := some "h".toList,
+             serverName := none, serverPort := none, query := none, scriptName := none,
+             joinLib := .error .valueError },
+    accept := none, fileWrapper := false }
+
+/-- hypotheses of `app_emitted_clean`: the programs are inside the domain, `App.serve` is defined,
+the cookie jar is clean; the refused assignment became a 500 whose list has no `X` header, while a
+404 keeps the hook's cookie and drops its header (`apply`) -/
+example : App.DomainB nvAppCfg ∧
+    (match App.serveW nvAppCfg nvAppRouter (nvAppReq [47, 97]) with
+     | .ok res => res.slots.resp.code == 500 &&
+         res.slots.resp.cookies.all (fun c => !hasCtl (c.1 ++ '=' :: c.2)) &&
+         (App.startOf res.events).any (fun x => !x.2.1.any (fun h => h.1 == "X".toList) &&
+           x.2.1.any (fun h => h.1 == "Set-Cookie".toList && h.2 == "k=v".toList))
+     | .error _ => false) = true ∧
+    (match App.serveW nvAppCfg nvAppRouter (nvAppReq [47, 98]) with
+     | .ok res => res.slots.resp.code == 404 &&
+         (App.startOf res.events).any (fun x => !x.2.1.any (fun h => h.1 == "X-A".toList) &&
+           x.2.1.any (fun h => h.1 == "Set-Cookie".toList))
+     | .error _ => false) = true :=
+  ⟨⟨by decide, by decide, fun _ _ => ⟨by
+      show ([Wsgi.Eff.setHeader "X".toList "a\r\nSet-Cookie: x".toList]).all Wsgi.Eff.ok = true
+      decide, rfl⟩⟩, by decide +kernel, by decide +kernel⟩
 
 end NonVacuity
 
